@@ -121,11 +121,21 @@ fn mutate(m: &Meta, ty: Ty, base: &[u8], pool: &[Vec<u8>], m0: u8, m1: u8, e: u8
     let mut v = base.to_vec();
     match m0 {
         0..=127 => return (v, false),
-        128..=191 => {
+        128..=159 => {
             // one byte changed
             if !v.is_empty() {
                 let off = (m1 as usize * 256 + e as usize) % v.len();
-                v[off] ^= (m0 & 0x3f) | 1;
+                v[off] ^= (m0 & 0x1f) | 1;
+            }
+        }
+        160..=191 => {
+            // the same bits flipped in two bytes (differences cancel under XOR)
+            if v.len() >= 2 {
+                let off = (m1 as usize * 256 + e as usize) % (v.len() - 1);
+                let other = (off + 1 + (m0 & 3) as usize).min(v.len() - 1);
+                let x = ((m0 >> 2) & 7) as u32;
+                v[off] ^= 1 << x;
+                v[other] ^= 1 << x;
             }
         }
         192..=239 => {
